@@ -132,8 +132,15 @@ def sanitizePart (value : String) : String :=
   let parts := (cleaned.splitOn " ").filter (fun p => !p.isEmpty)
   if parts.isEmpty then "Variant" else String.join (parts.map capitalize)
 
-def syntheticRefName (disc key : String) (unionHash : Int) : String :=
-  "Discriminated" ++ sanitizePart disc ++ sanitizePart key ++ toString unionHash.natAbs
+def hex4 (n : Nat) : String :=
+  let d (k : Nat) : Char := "0123456789abcdef".toList.getD (k % 16) '0'
+  String.ofList [d (n / 4096), d (n / 256), d (n / 16), d n]
+
+/-- `getSyntheticRefName`: a tag whose sanitized form is shared with another tag of the same union carries its UTF-16
+code units -/
+def syntheticRefName (disc key : String) (unionHash : Int) (ambiguous : Bool := false) : String :=
+  "Discriminated" ++ sanitizePart disc ++ sanitizePart key ++
+    (if ambiguous then "_" ++ String.join ((utf16 key).map hex4) ++ "_" else "") ++ toString unionHash.natAbs
 
 def typeofOfConst : JsVal → Option String
   | .str _ => some "string"
@@ -230,9 +237,10 @@ def schema (env : Env) (o : SOpts) : Nat → RT → Option String → List Strin
           let step (acc : SRes (List (String × String))) (kv : String × RT) : SRes (List (String × String)) :=
             match acc with
             | .ok refs c =>
+              let ambiguous := decide ((schemaMapping.filter fun kv' => sanitizePart kv'.1 == sanitizePart kv.1).length > 1)
               let (name, target) : String × Option RT := match stripDesc kv.2 with
-                | .ref r => (r, env.lookup r)
-                | _ => (syntheticRefName key kv.1 unionHash, some kv.2)
+                | .ref r => (r, match o.overrides.find? (fun p => p.1 == r) with | some p => some p.2 | none => env.lookup r)
+                | _ => (syntheticRefName key kv.1 unionHash ambiguous, some kv.2)
               (match target with
                 | none => .throw c
                 | some target =>
